@@ -416,6 +416,154 @@ Proof.
   cbn zeta. apply (H (init v pto) (timer_inv_init v pto)).
 Qed.
 
+(** ** Histories that end with a close (connection.go handleCloseError, closedLocalConn) *)
+
+Lemma step_bytesReceived_nonneg s o : wf_op o -> 0 <= bytesReceived s -> 0 <= bytesReceived (step s o).
+Proof.
+  intros Hwf H. destruct o as [n t | l t | t pkts | now | m]; cbn [step].
+  - destruct (receivedBytes_fields s n) as (_ & H2 & _). rewrite H2. cbn in Hwf. lia.
+  - destruct (receivedPacket_fields s l) as (_ & H2 & _). rewrite H2. exact H.
+  - unfold trySend. destruct (sendMode s =? amp_SendNone); [exact H|].
+    pose proof (fold_sentPacket_fields t pkts s) as G. cbn zeta in G. destruct G as (_ & G2 & _).
+    rewrite G2. exact H.
+  - destruct (timeoutDue s now); [|exact H].
+    destruct (onTimeout_fields s) as (_ & H2 & _). rewrite H2. exact H.
+  - cbn. exact H.
+Qed.
+
+(** the invariant of a connection that may have been closed *)
+Definition close_inv (cl : cstate * Z) : Prop :=
+  let '(c, last) := cl in
+  0 <= bytesReceived (sph c) /\
+  cSent c <= 3 * cRcvd c /\
+  (closedPkt c = None -> closeSent c = 0 /\ cSent c = 0 /\ cRcvd c = 0) /\
+  (validated (sph c) = false -> bytesSent (sph c) + closeSent c <= 3 * bytesReceived (sph c) + last).
+
+Lemma close_inv_init v pto : close_inv (cinit v pto, 0).
+Proof. unfold close_inv, cinit, init; cbn. repeat split; try lia; auto. Qed.
+
+Lemma close_inv_closed s p cs cr csn cc last :
+  0 <= bytesReceived s -> csn <= 3 * cr ->
+  (validated s = false -> bytesSent s + cs <= 3 * bytesReceived s + last) ->
+  close_inv (CS s (Some p) cs cr csn cc, last).
+Proof.
+  intros H1 H2 H3. unfold close_inv. cbn [sph closedPkt closeSent cRcvd cSent cCount].
+  split; [exact H1|]. split; [exact H2|]. split; [intros X; discriminate X|exact H3].
+Qed.
+
+Lemma cstep_g_inv cl o : wf_cop o -> close_inv cl -> close_inv (cstep_g cl o).
+Proof.
+  destruct cl as [c last]. destruct c as [s cp cs cr csn cc].
+  intros Hwf Hinv. pose proof Hinv as (Hr & Hc & Hopen & Hb).
+  cbn [sph closedPkt closeSent cRcvd cSent cCount] in Hr, Hc, Hopen, Hb.
+  unfold cstep_g, cstep. cbn [sph closedPkt closeSent cRcvd cSent cCount].
+  destruct o as [o | hc size | n].
+  - (* an op on the handler *)
+    destruct cp as [p|]; [exact Hinv|].
+    destruct (Hopen eq_refl) as (E1 & E2 & E3). subst cs csn cr.
+    pose proof (step_g_inv (s, last) o Hwf) as G. unfold amp_inv in G. cbn [fst snd] in G.
+    assert (G0 : validated s = false -> bytesSent s <= 3 * bytesReceived s + last).
+    { intros Hv. specialize (Hb Hv). lia. }
+    specialize (G G0). unfold step_g in G. cbn [fst snd] in G.
+    unfold close_inv. cbn [sph closedPkt closeSent cRcvd cSent cCount].
+    split; [apply step_bytesReceived_nonneg; assumption|].
+    split; [lia|]. split; [intros _; auto|].
+    unfold step_g. cbn [snd]. intros Hv. specialize (G Hv). lia.
+  - (* Close *)
+    destruct Hwf as [-> Hsz].
+    destruct cp as [p|]; [exact Hinv|].
+    destruct (Hopen eq_refl) as (E1 & E2 & E3). subst cs csn cr.
+    destruct (close_suppressed s false) eqn:Es.
+    + apply close_inv_closed; [exact Hr|lia|exact Hb].
+    + apply close_inv_closed; [exact Hr|lia|]. intros Hv.
+      unfold close_suppressed in Es. cbn [negb andb] in Es.
+      destruct (Z.ltb_spec 0 (bytesSent s)) as [Hpos|Hnp]; cbn [andb] in Es.
+      * apply Z.eqb_neq in Es. pose proof (permitted_send_strict s Hv Es). lia.
+      * lia.
+  - (* a datagram for the closed connection *)
+    cbn in Hwf. destruct cp as [p|]; [|exact Hinv].
+    destruct (0 <? p) eqn:Ep; [|exact Hinv].
+    destruct (is_pow2 (cc + 1) && (csn + p <=? 3 * (cr + n))) eqn:Eg.
+    + apply andb_prop in Eg as [_ Eg]. apply Z.leb_le in Eg.
+      apply close_inv_closed; [exact Hr|lia|exact Hb].
+    + apply close_inv_closed; [exact Hr|lia|exact Hb].
+Qed.
+
+Lemma crun_g_inv ops : forall cl, Forall wf_cop ops -> close_inv cl -> close_inv (crun_g cl ops).
+Proof.
+  induction ops as [|o r IH]; intros cl Hwf Hinv; cbn [crun_g fold_left]; [exact Hinv|].
+  inversion Hwf as [|? ? Ho Hr]; subst. apply IH; [exact Hr|]. apply cstep_g_inv; assumption.
+Qed.
+
+(** The bound over everything put on the wire, for histories that may end with a close and
+    with datagrams arriving for the closed connection. *)
+Theorem amplification_bound_close : forall v pto ops k c last,
+  Forall wf_cop ops ->
+  crun_g (cinit v pto, 0) (firstn k ops) = (c, last) ->
+  validated (sph c) = false ->
+  wireSent c <= 3 * wireRcvd c + last.
+Proof.
+  intros v pto ops k c last Hwf Hrun Hv.
+  pose proof (crun_g_inv (firstn k ops) (cinit v pto, 0) (Forall_firstn _ k ops Hwf) (close_inv_init v pto)) as H.
+  rewrite Hrun in H. destruct H as (_ & Hc & _ & Hb). specialize (Hb Hv).
+  unfold wireSent, wireRcvd. lia.
+Qed.
+
+(** An unvalidated server that has used up its limit closes silently and for good:
+    nothing is written, and whatever arrives later is ignored. *)
+Lemma closed_silent_fix ops : forall c, closedPkt c = Some 0 -> crun c ops = c.
+Proof.
+  induction ops as [|o r IH]; intros c Hc; cbn [crun fold_left]; [reflexivity|].
+  assert (Es : cstep c o = c).
+  { unfold cstep. rewrite Hc. destruct o; reflexivity. }
+  rewrite Es. apply IH. exact Hc.
+Qed.
+
+Theorem close_gated : forall c size ops,
+  closedPkt c = None -> validated (sph c) = false ->
+  0 < bytesSent (sph c) -> 3 * bytesReceived (sph c) <= bytesSent (sph c) ->
+  crun c (Close false size :: ops) = CS (sph c) (Some 0) 0 0 0 0.
+Proof.
+  intros c size ops Ho Hv Hpos Hlim.
+  destruct (limited_blocks (sph c) 0 [] Hv Hlim) as [Hm _].
+  assert (Hs : close_suppressed (sph c) false = true).
+  { unfold close_suppressed. rewrite Hm, Z.eqb_refl. apply Z.ltb_lt in Hpos. rewrite Hpos. reflexivity. }
+  cbn [crun fold_left]. unfold cstep at 2. rewrite Ho, Hs.
+  apply closed_silent_fix. reflexivity.
+Qed.
+
+(** Regression example: the history of the finding ampconn/close-ungated (two 1200-byte client
+    Initials, six 1280-byte server datagrams = 7680 >= 7200, then the application closes with a
+    106-byte CONNECTION_CLOSE, then the client's 37-byte Handshake datagrams arrive): the
+    repaired server stays at 7680 bytes; had it been under the limit, the close is written
+    once and retransmitted only within 3x of what arrives afterwards. *)
+Definition close_example_ops : list cop :=
+  [ SphOp (Recv 1200 10); SphOp (Recv 1200 10);
+    SphOp (TrySend 11 [(amp_EncInitial, 1280, true)]); SphOp (TrySend 11 [(amp_EncHandshake, 1280, true)]);
+    SphOp (TrySend 11 [(amp_EncHandshake, 1280, true)]); SphOp (TrySend 11 [(amp_EncHandshake, 1280, true)]);
+    SphOp (TrySend 11 [(amp_EncHandshake, 1280, true)]); SphOp (TrySend 11 [(amp_EncHandshake, 1280, true)]);
+    SphOp (TrySend 11 [(amp_EncHandshake, 1280, true)]);   (* blocked *)
+    Close false 106; ClosedRecv 37; ClosedRecv 37; ClosedRecv 37; ClosedRecv 37 ].
+
+Lemma close_example_run :
+  Forall wf_cop close_example_ops /\
+  (let c := crun (cinit false 200000000) close_example_ops in
+   wireSent c = 7680 /\ wireRcvd c = 2400 /\ closedPkt c = Some 0) /\
+  (* under the limit (five datagrams only): close written, then 106 <= 3*37, 212 <= 3*74, (3rd packet: no), 318 <= 3*148 *)
+  (let c := crun (cinit false 200000000)
+              (firstn 7 close_example_ops ++ [Close false 106; ClosedRecv 37; ClosedRecv 37; ClosedRecv 37; ClosedRecv 37]) in
+   wireSent c = 6400 + 106 + 3 * 106 /\ wireRcvd c = 2400 + 148 /\ closedPkt c = Some 106) /\
+  (* tiny datagrams do not buy a retransmission: 106 > 3*21 *)
+  (let c := crun (cinit false 200000000) (firstn 7 close_example_ops ++ [Close false 106; ClosedRecv 21]) in
+   wireSent c = 6400 + 106).
+Proof.
+  split; [|split; [|split]].
+  - repeat constructor; cbn; lia.
+  - vm_compute. repeat split; reflexivity.
+  - vm_compute. repeat split; reflexivity.
+  - vm_compute. reflexivity.
+Qed.
+
 (** Non-vacuity: a history that reaches the limit, is blocked, is unblocked by a small
     client datagram, sends again, and is validated by a Handshake packet. *)
 Definition example_ops : list op :=
